@@ -156,13 +156,15 @@ async fn vf_listener_failures_at_connect() {
     let (mut checked, mut bad) = (0u64, 0u64);
     for mode in ["no listener", "accepts and closes at once", "accepts and sends a line that is not the expected JSON", "accepts and sends half a line, then closes",
                  "accepts, sends valid arguments, then closes", "accepts, sends valid arguments asking for stdout, then closes",
+                 "accepts, asks for both streams of everything, then reads to the end",
                  "accepts, sends long target and command filters in a non-Latin script, then reads to the end",
                  "accepts, sends long target and command filters in a non-Latin script (shifted by one byte), then reads to the end",
                  "accepts, sends long target and command filters in a non-Latin script (shifted by two bytes), then reads to the end"] {
         checked += 1;
         let td = crate::core::testing::new_testdir().unwrap();
         let wp = td.path();
-        script(&wp.join("t1/monorail/cmd"), "hello.sh", "echo hello; echo err 1>&2; exit 0");
+        // the command also writes one line far longer than any staging buffer a client of the listener might use
+        script(&wp.join("t1/monorail/cmd"), "hello.sh", "echo hello; echo err 1>&2; head -c 70000 /dev/zero | tr '\\0' 'L'; echo; exit 0");
         let l = std::net::TcpListener::bind("127.0.0.1:0").unwrap();
         let port = l.local_addr().unwrap().port();
         let m = mode.to_string();
@@ -176,6 +178,10 @@ async fn vf_listener_failures_at_connect() {
                         "accepts and sends a line that is not the expected JSON" => { let _ = s.write_all(b"hello there\n"); }
                         "accepts and sends half a line, then closes" => { let _ = s.write_all(b"{\"commands\":[\"a\"],"); }
                         "accepts, sends valid arguments, then closes" => { let _ = s.write_all(b"{\"commands\":[],\"targets\":[],\"include_stdout\":false,\"include_stderr\":false}\n"); }
+                        "accepts, asks for both streams of everything, then reads to the end" => {
+                            let _ = s.write_all(b"{\"commands\":[],\"targets\":[],\"include_stdout\":true,\"include_stderr\":true}\n");
+                            use std::io::Read; let mut sink = Vec::new(); let _ = s.read_to_end(&mut sink);
+                        }
                         x if x.starts_with("accepts, sends long target and command filters in a non-Latin script") => {
                             // filters a listener may well have: one long name that is not ASCII (the banner the client sends back names it); with
                             // 0, 1 or 2 ASCII bytes in front, every byte offset falls inside a character in one of the three
@@ -196,10 +202,14 @@ async fn vf_listener_failures_at_connect() {
         let wp2 = wp.to_path_buf();
         let joined = std::thread::spawn(move || {
             let rt = tokio::runtime::Builder::new_multi_thread().worker_threads(2).enable_all().build().unwrap();
-            rt.block_on(async { match tokio::time::timeout(std::time::Duration::from_secs(20), handle_run(&cfg, &input(vec![&cmd]), "x", &wp2)).await { Ok(o) => o.map(|x| x.failed).map_err(|e| e.to_string()), Err(_) => Err("the run did not return within 20 s".to_string()) } })
+            rt.block_on(async { match tokio::time::timeout(std::time::Duration::from_secs(20), handle_run(&cfg, &input(vec![&cmd]), "x", &wp2)).await {
+                Ok(o) => o.map(|x| (x.failed, x.results.iter().flat_map(|c| c.target_groups.iter()).flat_map(|g| g.iter().map(|(t, r)| format!("{}={}", t, r.status.as_str()))).collect::<Vec<_>>())).map_err(|e| e.to_string()),
+                Err(_) => Err("the run did not return within 20 s".to_string()) } })
         }).join();
-        let o: Result<bool, String> = match joined { Ok(r) => r, Err(_) => Err("the run PANICKED".to_string()) };
-        let ok = matches!(&o, Ok(false));
+        let o: Result<(bool, Vec<String>), String> = match joined { Ok(r) => r, Err(_) => Err("the run PANICKED".to_string()) };
+        // the one target must be reported, as a success: a task that dies on the way (say inside the code that streams to the listener)
+        // leaves no entry at all
+        let ok = matches!(&o, Ok((false, st)) if *st == vec!["t1=success".to_string()]);
         if !ok {
             bad += 1;
             println!("VF-FAIL run of one succeeding command with the log listener in state `{}` :: the run did not succeed ({:?}); a listener - whatever it sends, whatever becomes of it - must only affect streaming (C15)", mode, o);
